@@ -1,6 +1,7 @@
 // Shared harness layer: byte-string decoder, case report, small helpers.
 // No string_theory header is included here.
 #pragma once
+#include <cerrno>
 #include <cstddef>
 #include <cstdint>
 #include <cstdio>
@@ -71,15 +72,34 @@ struct Reader {
 
 // ---------------------------------------------------------------------------
 // Exact-size heap copies: reading one unit too many is a heap-buffer-overflow.
+// The copy ends exactly at the end of its heap block; it starts g_misalign bytes (rounded down to a whole unit) past a
+// 16-byte boundary, so word-at-a-time code in the library sees every source alignment.  g_misalign is a pure function of
+// the case bytes (engine: case_environment), 0 for half of the cases.
+inline unsigned g_misalign = 0;
+// errno as an earlier, unrelated call of the program may have left it (0 in half of the cases, else ERANGE / EINVAL / EDOM):
+// pre_errno() is called by the harnesses right before calls into the library that parse numbers or format
+inline int g_errno_pre = 0;
+inline void pre_errno() { errno = g_errno_pre; }
+inline void case_environment(const uint8_t *d, size_t n) {
+    uint64_t h = 1469598103934665603ull;
+    for (size_t i = 0; i < n; i++) { h ^= d[i]; h *= 1099511628211ull; }
+    h ^= h >> 29;
+    g_misalign = (h & 8) ? (unsigned)(h & 7) : 0;
+    static const int kErr[8] = {0, ERANGE, 0, EINVAL, 0, ERANGE, 0, EDOM};
+    g_errno_pre = kErr[(h >> 4) & 7];
+}
 template <class T> struct Exact {
-    T *p; size_t n;
+    T *p; size_t n; void *base;
     Exact(const T *src, size_t count, bool nul = false) : n(count) {
-        p = static_cast<T *>(::malloc((count + (nul ? 1 : 0)) * sizeof(T) + (count + (nul ? 1 : 0) == 0 ? 1 : 0)));
+        const size_t off = (g_misalign & 7) / sizeof(T) * sizeof(T);
+        const size_t bytes = (count + (nul ? 1 : 0)) * sizeof(T);
+        base = ::malloc(off + bytes + (off + bytes == 0 ? 1 : 0));
+        p = reinterpret_cast<T *>(static_cast<char *>(base) + off);
         if (count) memcpy(p, src, count * sizeof(T));
         if (nul) p[count] = 0;
     }
     template <class S, class = decltype(std::declval<const S &>().data())> explicit Exact(const S &s, bool nul = false) : Exact(s.data(), s.size(), nul) {}
-    ~Exact() { ::free(p); }
+    ~Exact() { ::free(base); }
     Exact(const Exact &) = delete; Exact &operator=(const Exact &) = delete;
     const T *data() const { return p; } T *data() { return p; } size_t size() const { return n; }
 };
